@@ -1,143 +1,4 @@
-/-
-C11 — Server messages and environment changes are surfaced exactly once.
-
-Channel layer (`Model/ChanRx.lean`): the events of a response are, for each package in arrival
-order, its hook calls / packet size change / delivery — whatever the packetisation (C02).
-Consumer layer (`Model/Consume.lean`): a failing callback returns the EED packages received so
-far, in order.
--/
-import Dblib.Props.C02
-import Dblib.Model.Consume
-
-namespace Dblib.Props.C11
-open Dblib Dblib.Rx Dblib.Props.C02
-variable {Pkg : Type}
-
-/-- **Explicit form of what any packetisation delivers**: for every parser family with the
-incremental law, every response parsing whole into `pkgs`, every cut of it into packets: the events
-are those of the packages in order, then the synthetic final DONE. -/
-theorem c11_events_of_any_cut (ops : Ops Pkg)
-    (hI : ∀ tok last p, ops.select tok last = .parser p → Incr p)
-    (rx : Rx Pkg) (T : Bytes) (pkgs : List Pkg) (cs : List Bytes)
-    (hbuf : rx.buf = []) (heom : rx.eom = false) (hc : rx.closed = false)
-    (hW : WholeP ops rx.last T pkgs) (hne : cs ≠ []) (hcs : cs.flatten = T) :
-    feed ops rx (markLast cs) =
-      some (withBuf rx (pkgs.foldl (lastAfter ops) rx.last) [] false,
-        pkgs.flatMap (acceptEv ops rx.nEed rx.nEnv) ++ synthDone ops (pkgs.foldl (lastAfter ops) rx.last)) := by
-  rw [c02_cuts_irrelevant ops hI rx T cs hbuf heom hc hW.whole hne hcs]
-  have hrx : rx = withBuf rx rx.last [] false := by cases rx; simp_all [withBuf]
-  have hfl : (run ops (withBuf rx rx.last ([] ++ T) true)).2.2 = true := by
-    rw [List.nil_append, run_whole ops rx.last T pkgs hW rx]
-  simp only [markLast, feed]
-  conv => lhs; rw [hrx]
-  rw [writeBody_eq ops rx rx.last [] T true hfl hc]
-  simp only [List.nil_append, run_whole ops rx.last T pkgs hW rx, Option.map_some, List.append_nil]
-
-/-- a non-informational EED: every registered hook is called exactly once, in registration order,
-with this package, and then the package is delivered -/
-theorem c11_eed_events (ops : Ops Pkg) (nEed nEnv : Nat) (pkg : Pkg) (h : ops.special pkg = .eed) :
-    acceptEv ops nEed nEnv pkg = (List.range nEed).map (fun i => Ev.eedHook i pkg) ++ [.deliver pkg] := by
-  simp [acceptEv, accept, h]
-
-/-- an informational EED is never delivered and calls no hook -/
-theorem c11_eed_info_silent (ops : Ops Pkg) (nEed nEnv : Nat) (pkg : Pkg) (h : ops.special pkg = .eedInfo) :
-    acceptEv ops nEed nEnv pkg = [] := by
-  simp [acceptEv, accept, h]
-
-/-- the events of an environment change with well-formed members: for each member in order the
-packet size update (for PACKSIZE) and one call of every registered hook with (type, old, new) -/
-def envSpec (ops : Ops Pkg) (nEnv : Nat) : List (Nat × Bytes × Bytes) → List (Ev Pkg)
-  | [] => []
-  | (t, old, new) :: rest =>
-    (if t == ops.envPackSize then
-      match ops.atoi new with
-      | some n => [Ev.packSize n]
-      | none => []
-     else []) ++ (List.range nEnv).map (fun i => Ev.envHook i t old new) ++ envSpec ops nEnv rest
-
-theorem envMembers_spec (ops : Ops Pkg) (nEnv : Nat) (ms : List (Nat × Bytes × Bytes))
-    (hwf : ∀ m ∈ ms, m.1 = ops.envPackSize → (ops.atoi m.2.2).isSome) :
-    envMembers ops nEnv ms = (envSpec ops nEnv ms, true) := by
-  induction ms with
-  | nil => rfl
-  | cons m ms ih =>
-    obtain ⟨t, old, new⟩ := m
-    have ih' := ih (fun x hx => hwf x (by simp [hx]))
-    unfold envMembers envSpec
-    by_cases ht : (t == ops.envPackSize) = true
-    · have := hwf (t, old, new) (by simp) (by simpa using ht)
-      simp only at this
-      cases ha : ops.atoi new with
-      | none => simp [ha] at this
-      | some n => simp [ht, ih']
-    · simp only [Bool.not_eq_true] at ht
-      simp [ht, ih']
-
-/-- an environment change is never delivered; every member is applied / reported exactly once -/
-theorem c11_env_events (ops : Ops Pkg) (nEed nEnv : Nat) (pkg : Pkg) (ms : List (Nat × Bytes × Bytes))
-    (h : ops.special pkg = .env ms)
-    (hwf : ∀ m ∈ ms, m.1 = ops.envPackSize → (ops.atoi m.2.2).isSome) :
-    acceptEv ops nEed nEnv pkg = envSpec ops nEnv ms := by
-  simp [acceptEv, accept, h, envMembers_spec ops nEnv ms hwf]
-
-/-- an ordinary package is delivered, nothing else -/
-theorem c11_plain_events (ops : Ops Pkg) (nEed nEnv : Nat) (pkg : Pkg) (h : ops.special pkg = .none) :
-    acceptEv ops nEed nEnv pkg = [.deliver pkg] := by
-  simp [acceptEv, accept, h]
-
-/-- **Before any later package**: in the events of a response, everything caused by an earlier
-package precedes everything caused by a later one. -/
-theorem c11_order (ops : Ops Pkg) (nEed nEnv : Nat) (pre mid post : List Pkg) (a b : Pkg) :
-    (pre ++ a :: mid ++ b :: post).flatMap (acceptEv ops nEed nEnv) =
-      pre.flatMap (acceptEv ops nEed nEnv) ++ acceptEv ops nEed nEnv a ++
-        mid.flatMap (acceptEv ops nEed nEnv) ++ acceptEv ops nEed nEnv b ++
-        post.flatMap (acceptEv ops nEed nEnv) := by
-  simp [List.flatMap_append, List.flatMap_cons, List.append_assoc]
-
-/-! ## consumer layer: the error of a failing callback carries the messages received so far -/
-
-open Dblib.Consume in
-/-- If `NextPackageUntil` ends with the callback's error, the EED packages attached to it are
-exactly the EED packages consumed before the failing package (preceded by those already
-collected), in arrival order; every package in between was an EED or was accepted by the callback. -/
-theorem c11_error_carries_messages (ops : Consume.Ops Pkg) (cb : Pkg → Consume.Cb) :
-    ∀ (q eeds e q' : List Pkg), Consume.untilCb ops cb q eeds = (.cbErr e, q') →
-      ∃ pre p post, q = pre ++ p :: post ∧ cb p = .fail ∧ ops.isEED p = false
-        ∧ (∀ x ∈ pre, ops.isEED x = true ∨ cb x = .cont)
-        ∧ e = eeds ++ pre.filter ops.isEED := by
-  intro q
-  induction q with
-  | nil => intro eeds e q' h; simp [Consume.untilCb] at h
-  | cons x q ih =>
-    intro eeds e q' h
-    unfold Consume.untilCb at h
-    by_cases hx : ops.isEED x = true
-    · simp only [hx, if_true] at h
-      obtain ⟨pre, p, post, h1, h2, h3, h4, h5⟩ := ih _ _ _ h
-      refine ⟨x :: pre, p, post, by simp [h1], h2, h3, ?_, ?_⟩
-      · intro y hy
-        rcases List.mem_cons.1 hy with rfl | hy
-        · exact Or.inl hx
-        · exact h4 y hy
-      · simp [h5, hx, List.append_assoc]
-    · simp only [Bool.not_eq_true] at hx
-      simp only [hx, Bool.false_eq_true, if_false] at h
-      cases hc : cb x with
-      | eof => simp [hc] at h
-      | stop => simp [hc] at h
-      | fail =>
-        simp only [hc] at h
-        injection h with h1 h2
-        injection h1 with h1
-        exact ⟨[], x, q, rfl, hc, hx, by simp, by simp [h1]⟩
-      | cont =>
-        simp only [hc] at h
-        obtain ⟨pre, p, post, h1, h2, h3, h4, h5⟩ := ih _ _ _ h
-        refine ⟨x :: pre, p, post, by simp [h1], h2, h3, ?_, ?_⟩
-        · intro y hy
-          rcases List.mem_cons.1 hy with rfl | hy
-          · exact Or.inr hc
-          · exact h4 y hy
-        · simp [h5, hx]
-
-end Dblib.Props.C11
+-- C11: abstract theorems (any parser family with the incremental law) and their instantiation
+-- with the transcribed package decoders (Model/Codec/Pkg.lean)
+import Dblib.Props.C11.Abstract
+import Dblib.Props.C11.Concrete
